@@ -55,12 +55,13 @@ PROPS = {
                 "each (LabelNames, LabelValues, PostingsOffsets, PostingsOffset, LookupSymbol, IndexVersion; present and absent names/values) "
                 "while the pool's own sweeper runs on the fake clock and a closer performs 0-3 Close calls on the reader or the pool; the "
                 "scheduler decides every step including the two windows of the RLock->Lock->RLock upgrade in load(); every answer is "
-                "compared with an in-memory BinaryReader over the same index. distinct = distinct event-log hash; non-trivial = at least "
+                "compared with an in-memory BinaryReader over the same index, and no question may be put to a BinaryReader the lazy reader has "
+                "already closed (use and close are reported by event hooks in BinaryReader). distinct = distinct event-log hash; non-trivial = at least "
                 "one correct answer and at least one reload after an unload.",
         "components": {
             "real": ["indexheader.ReaderPool incl. its idle-sweeper goroutine", "indexheader.LazyBinaryReader", "indexheader.BinaryReader over a "
                      "memory-mapped index-header file", "indexheader.WriteBinary", "Prometheus tsdb.CreateBlock (fixture, outside the bubble)"],
-            "stub": ["clock (testing/synctest)", "goroutine scheduling (two verifhook.Yield sites in LazyBinaryReader.load)",
+            "stub": ["clock (testing/synctest)", "goroutine scheduling (two verifhook.Yield sites in LazyBinaryReader.load; probes count how often a lookup's upgrade window saw an unload, or an unload and a reload)",
                      "object storage: objstore in-memory bucket with non-parking seeded GetRange failures (reads happen under the reader's lock)"],
         },
         "assumptions": ["a call may fail with the documented 'concurrently unloaded' error or, when a bucket fault was injected, with that "
